@@ -30,6 +30,7 @@ RULE = (
     "interpreter process per input (started with a different string-hash seed than the checking process). Invariant after every step: the in-process result is byte-identical to the model's, "
     "and the caller's op objects still denote the same routine set. Non-trivial = history of >= 3 steps in which an "
     "input is repeated after a different one, or a call follows a raising call; distinct by hash of (pool, steps)."
+    ' One pool in five holds a program nested 60-240 blocks deep; the two-projects rule also hands the shared compiler the unsaved buffer of a library whose import fails.'
 )
 ASSUMPTIONS = [
     "byte-identical means equality of the canonical JSON forms of vf/results.py (ops with jump structure, offsets, routine table, text, SourceMap.serialize())",
